@@ -113,7 +113,7 @@ def install_imul_monitor(S, key_prefix="hook/segment-imul"):
             ctx = active()
             ctx.see("hook-imul-" + cname, dev / bound)
             if dev > bound:
-                ctx.violation("%s/%s" % (key_prefix, cname), "%s *= Matrix%s moved point(t) to %s, expected %s (dev %.3g, bound %.3g)" % (cname, m, new, exp, dev, bound), monitor="segment-imul")
+                ctx.violation("%s/%s" % (key_prefix, cname), "%s *= Matrix%s moved point(t) to %s, expected %s (dev %.3g, bound %.3g)" % (cname, m, new, exp, dev, bound), monitor="segment-imul-hook")
 
         return pre, post
 
@@ -127,4 +127,4 @@ def install_imul_monitor(S, key_prefix="hook/segment-imul"):
         if owner is None or getattr(owner.__dict__["__imul__"], "__wrapped_original__", None) is not None:
             continue
         pre, post = make(owner.__name__)
-        hook.wrap(owner, "__imul__", pre=pre, post=post, monitor="segment-imul")
+        hook.wrap(owner, "__imul__", pre=pre, post=post, monitor="segment-imul-hook")
